@@ -141,7 +141,7 @@ def splitBar (ws : List String) : List (List String) :=
 
 def step (d : DState) (opLine : String) (impl : String) : DState × StepOut :=
   if impl = "skipped-after-panic" then (d, { model := impl })
-  else if impl = "panic" || ((words impl).headD "").splitOn "," |>.any (· = "panic") then
+  else if impl = "panic" || (((words impl).headD "").splitOn ",").any (fun t => t = "panic") then
     -- the implementation panicked while handling this op: never acceptable on this path
     ({ d with desync := true }, { model := "no-panic", fails := [s!"sig=C06.heartbeat-path-panicked op={(words opLine).headD ""}"] })
   else
